@@ -273,7 +273,7 @@ theorem mstep_slide (s : MB) (x y : Int) (d : Dir) (drops : List Nat) : mstep s 
 
 theorem slide_rel {b b' : MB} (h : BR b b') (x y : Int) (d : Dir) (drops : List Nat)
     (hsrc : onB b.size x y = true → nearS b.size x y = true)
-    (hp : pathNear b.size d x y drops.length) :
+    (hp : onB b.size x y = true → pathNear b.size d x y drops.length) :
     OptRel (mstep b (.slide x y d drops)) (mstep b' (.slide x y d drops)) := by
   rw [mstep_slide, mstep_slide, ← h.ply, ← h.toMove, ← h.size]
   have hbb : b'.onBoard x y = b.onBoard x y := by rw [onBoard_eq, onBoard_eq, h.size]
@@ -305,7 +305,7 @@ theorem slide_rel {b b' : MB} (h : BR b b') (x y : Int) (d : Dir) (drops : List 
     · left; rw [if_pos c5, if_pos c5]; exact ⟨rfl, rfl⟩
     rw [if_neg c5, if_neg c5]
     have hrel := dropLoop_rel d drops _ _ x y (List.take (drops.foldl (· + ·) 0) (t :: rest))
-      (h.setAt_near x y hb hn (List.drop (drops.foldl (· + ·) 0) (t :: rest))) hp
+      (h.setAt_near x y hb hn (List.drop (drops.foldl (· + ·) 0) (t :: rest))) (hp hb)
     rcases hrel with ⟨h1, h2⟩ | ⟨q, q', h1, h2, hq⟩
     · left; rw [h1, h2]; exact ⟨rfl, rfl⟩
     · right; rw [h1, h2]; exact ⟨_, _, rfl, rfl, hq.incPly⟩
